@@ -320,6 +320,48 @@ def x_fromregex( ctx ):
     return res
 
 
+@rule( 'X-ENCODER', props=( 'C11', ), floor=8 )
+def x_encoder( ctx ):
+    """the encoder that turns each symbol of the expression into the input symbols of a bytes machine ( regex_bytes' default ) yields the
+    symbol's UTF-8 bytes - for EVERY symbol: the lambda's body is evaluated on sample symbols of each UTF-8 length class and on both sides of
+    each class boundary ( 0x7F|0x80, 0xFF|0x100, 0x7FF|0x800, 0xFFFF|0x10000 ), and regex_bytes is wired to it.  Input arrives as UTF-8: a
+    symbol encoded otherwise ( latin-1 below U+0100 ) becomes a transition on an octet the input never contains alone."""
+    res = Result( 'X-ENCODER' )
+    from .fold import fold, NoFold
+    src = ctx.src( AUTOMATA )
+    enc = src.module_assign( 'type_unicode_encoder' )
+    if not isinstance( enc.value, ast.Lambda ) or len( enc.value.args.args ) != 1:
+        raise AnalysisError( 'automata.type_unicode_encoder is not a one-argument lambda any more' )
+    P = enc.value.args.args[0].arg
+    samples = ( u'a', u'\x7f', u'\x80', u'\xe9', u'\xff', u'Ā', u'π', u'߿', u'ࠀ', u'€', u'￿', u'\U00010000', u'\U0001f600' )
+    wrong = []
+    for ch in samples:
+        try:
+            got = fold( enc.value.body, { P: ch } )
+            got = list( bytearray( got ) if isinstance( got, ( bytes, bytearray )) else got )
+        except NoFold as exc:
+            raise AnalysisError( 'type_unicode_encoder outside the modelled subset: %s' % exc )
+        want = list( bytearray( ch.encode( 'utf-8' )))
+        if got != want:
+            wrong.append(( ch, got, want ))
+        else:
+            res.ok( src, enc, 'U+%04X is encoded as its %d UTF-8 byte(s)' % ( ord( ch ), len( want )), nontrivial=( ch in ( u'\x80', u'\xff', u'Ā', u'ࠀ', u'\U00010000' )))
+    if wrong:
+        ch, got, want = wrong[0]
+        res.bad( src, enc, 'type_unicode_encoder( U+%04X ) yields %s, not the UTF-8 bytes %s (%d of %d sample symbols differ)' % ( ord( ch ), got, want, len( wrong ), len( samples )),
+                 'the bytes machine gets a transition on an octet that UTF-8 input never contains alone: the expression rejects its own symbol and accepts a lone octet; bytes and str machines disagree on the same expression and text' )
+    # wiring: on Python 3 the str encoder IS this encoder, and regex_bytes uses it by default
+    se = src.module_assign( 'type_str_encoder' )
+    names = { dotted( x ) for x in ast.walk( se.value ) if isinstance( x, ast.Name ) }
+    rb = src.get( 'regex_bytes.__init__' )
+    dfl = dict( zip( [ a.arg for a in rb.args.args[len( rb.args.args ) - len( rb.args.defaults ):] ], rb.args.defaults ))
+    if 'type_unicode_encoder' in names and dotted( dfl.get( 'regex_encoder' )) == 'type_str_encoder':
+        res.ok( src, rb, 'regex_bytes encodes the symbols of its expression with type_str_encoder ( = type_unicode_encoder on Python 3 ) by default' )
+    else:
+        res.bad( src, rb, 'regex_bytes default encoder: %s' % norm_text( dfl.get( 'regex_encoder' )) if dfl.get( 'regex_encoder' ) is not None else 'regex_bytes has no default encoder', 'the bytes machine must be built from the UTF-8 bytes of its symbols' )
+    return res
+
+
 @rule( 'X-TERMINAL', props=( 'C11', ), floor=2 )
 def x_terminal( ctx ):
     """dfa_base.terminal = own flag and the sub-machine's current state terminal and no repeat cycle pending (8-cell table); a plain state's
